@@ -687,13 +687,23 @@ func BaseStubs() map[string]StubFn {
 
 	// ---- logging of convergen (diagnostic trace)
 	lg := "github.com/reedom/convergen/pkg/logger."
-	st[lg+"Printf"] = func(r *Run, fr *frame, fn *ssa.Function, a []value) value { return nil }
-	st[lg+"Warnf"] = func(r *Run, fr *frame, fn *ssa.Function, a []value) value {
+	// With SetEnv("logger", "real") the logger package is NOT summarised: its own code runs on the
+	// log.Logger model below (harness C05Logger); otherwise the summaries apply.
+	realLogger := func(f StubFn) StubFn {
+		return func(r *Run, fr *frame, fn *ssa.Function, a []value) value {
+			if r.Env["logger"] == "real" {
+				return passThrough{}
+			}
+			return f(r, fr, fn, a)
+		}
+	}
+	st[lg+"Printf"] = realLogger(func(r *Run, fr *frame, fn *ssa.Function, a []value) value { return nil })
+	st[lg+"Warnf"] = realLogger(func(r *Run, fr *frame, fn *ssa.Function, a []value) value {
 		r.Diags = append(r.Diags, r.mkDiag("warn", a[0], variadic(a[1])))
 		r.Stderr = append(r.Stderr, concatV(r.renderMsg(a[0], variadic(a[1])), "\n"))
 		return nil
-	}
-	st[lg+"Errorf"] = func(r *Run, fr *frame, fn *ssa.Function, a []value) value {
+	})
+	st[lg+"Errorf"] = realLogger(func(r *Run, fr *frame, fn *ssa.Function, a []value) value {
 		d := r.mkDiag("error", a[0], variadic(a[1]))
 		r.Diags = append(r.Diags, d)
 		f, _ := a[0].(string)
@@ -710,14 +720,68 @@ func BaseStubs() map[string]StubFn {
 		}()
 		r.Stderr = append(r.Stderr, concatV(msg, "\n"))
 		return r.newError(msg)
-	}
-	st[lg+"SetupLogger"] = func(r *Run, fr *frame, fn *ssa.Function, a []value) value {
+	})
+	st[lg+"SetupLogger"] = realLogger(func(r *Run, fr *frame, fn *ssa.Function, a []value) value {
 		r.Effects = append(r.Effects, Effect{Op: "SetupLogger", Args: []value{len(variadic(a[0]))}})
 		return nil
+	})
+	st[lg+"Enable"] = realLogger(func(r *Run, fr *frame, fn *ssa.Function, a []value) value { return (*ssa.Function)(nil) })
+	st[lg+"Output"] = realLogger(func(r *Run, fr *frame, fn *ssa.Function, a []value) value { return (*ssa.Function)(nil) })
+	st[lg+"init"] = realLogger(func(r *Run, fr *frame, fn *ssa.Function, a []value) value { return nil })
+
+	// ---- package log: a Logger is its writer and its flags; Printf / Println format the message,
+	// end it with one line break and hand it to the writer in ONE write (package log's contract);
+	// a non-zero flag word puts a time stamp in front (opaque text)
+	st["log.New"] = func(r *Run, fr *frame, fn *ssa.Function, a []value) value {
+		return r.newToken("logger", map[string]value{"w": a[0], "flags": a[2]})
 	}
-	st[lg+"Enable"] = func(r *Run, fr *frame, fn *ssa.Function, a []value) value { return (*ssa.Function)(nil) }
-	st[lg+"Output"] = func(r *Run, fr *frame, fn *ssa.Function, a []value) value { return (*ssa.Function)(nil) }
-	st[lg+"init"] = func(r *Run, fr *frame, fn *ssa.Function, a []value) value { return nil }
+	logWrite := func(r *Run, self value, msg value) value {
+		ao, ok := self.(*absObj)
+		if !ok || ao == nil || ao.class != "logger" {
+			panic(unsupported("log.Logger method on a logger that log.New did not make"))
+		}
+		if s, ok := msg.(string); ok {
+			if !strings.HasSuffix(s, "\n") {
+				msg = s + "\n"
+			}
+		} else {
+			panic(unsupported("log.Logger output of a symbolic message"))
+		}
+		if fl, ok := ao.attrs["flags"].(int); !ok || fl != 0 {
+			msg = concatV("<time stamp> ", msg)
+		}
+		w := ao.attrs["w"]
+		if writeToBuilder(w, msg) {
+			return nil
+		}
+		s := streamName(w)
+		if s == "discard" {
+			return nil
+		}
+		r.Effects = append(r.Effects, Effect{Op: "print:" + s, Args: []value{msg}})
+		if s == "stderr" {
+			r.Stderr = append(r.Stderr, msg)
+		}
+		return nil
+	}
+	st["(*log.Logger).Printf"] = func(r *Run, fr *frame, fn *ssa.Function, a []value) value {
+		f, ok := a[1].(string)
+		if !ok {
+			panic(unsupported("log.Logger.Printf with a symbolic format"))
+		}
+		return logWrite(r, a[0], r.sprintf(f, variadic(a[2])))
+	}
+	st["(*log.Logger).Println"] = func(r *Run, fr *frame, fn *ssa.Function, a []value) value {
+		args := variadic(a[1])
+		var out value = ""
+		for i, x := range args {
+			if i > 0 {
+				out = concatV(out, " ")
+			}
+			out = concatV(out, r.sprintf("%v", []value{x}))
+		}
+		return logWrite(r, a[0], concatV(out, "\n"))
+	}
 
 	st["github.com/matoous/go-nanoid.Nanoid"] = func(r *Run, fr *frame, fn *ssa.Function, a []value) value {
 		if r.Env["nanoid"] == "symbolic" {
